@@ -52,7 +52,7 @@ try:
         res['suite'] = p.stdout.decode()[-300:]
     for c in checks:
         t = time.time()
-        p = subprocess.run(['./check', c, '--tier', a.tier], cwd='/verif', env=env, stdout=subprocess.PIPE, stderr=subprocess.STDOUT)
+        p = subprocess.run(['./check', c, '--tier', a.tier], cwd=os.environ.get('VERIF_HOME', '/verif'), env=env, stdout=subprocess.PIPE, stderr=subprocess.STDOUT)
         out = p.stdout.decode()
         sigs = [l.strip()[:200] for l in out.splitlines() if l.strip().startswith('sig=')]
         res['checks'][c] = {'rc': p.returncode, 'violations': out.count('\nVIOLATION') + out.startswith('VIOLATION'), 'sigs': sigs[:4],
